@@ -745,3 +745,59 @@ def check_carried_flags(prog, rep, rels, rule='LOOP-carried-flag'):
                               'treated the same way' % (key_text(st), r.lineno), st.lineno)
     rep.instance(rule, {'functions_analysed': n, 'modules': list(rels)})
     return n
+
+
+def mixed_accumulation(func):
+    """[(container, accumulating store, overwriting store)]: inside one loop body a local container
+    receives `C[a] = f(C[a], x)` (accumulation: the right side reads the element it writes) and
+    also a plain `C[b] = y` with another index expression. The slots are shared between
+    iterations (that is why one of them accumulates), so the plain store discards whatever an
+    earlier iteration put there."""
+    out = []
+    for lp in ast.walk(func):
+        if not isinstance(lp, (ast.For, ast.While)):
+            continue
+        stores = {}
+        inner = set()
+        for sub in ast.walk(lp):
+            if sub is not lp and isinstance(sub, (ast.For, ast.While)):
+                inner |= {id(x) for x in ast.walk(sub)}
+        for st in ast.walk(lp):
+            if id(st) in inner:
+                continue          # belongs to a nested loop: analysed with that loop
+            if isinstance(st, ast.Assign) and len(st.targets) == 1 and isinstance(
+                    st.targets[0], ast.Subscript) and isinstance(st.targets[0].value, ast.Name):
+                t = st.targets[0]
+                acc = any(isinstance(x, ast.Subscript) and ast.unparse(x) == ast.unparse(t) and
+                          isinstance(x.ctx, ast.Load) for x in ast.walk(st.value))
+                stores.setdefault(t.value.id, []).append((ast.unparse(t.slice), acc, st))
+            elif isinstance(st, ast.AugAssign) and isinstance(st.target, ast.Subscript) and \
+                    isinstance(st.target.value, ast.Name):
+                stores.setdefault(st.target.value.id, []).append(
+                    (ast.unparse(st.target.slice), True, st))
+        for c, lst in stores.items():
+            accs = [x for x in lst if x[1]]
+            plain = [x for x in lst if not x[1]]
+            if accs and plain:
+                for p in plain:
+                    if any(p[0] != a[0] for a in accs):
+                        out.append((c, accs[0][2], p[2]))
+    return out
+
+
+def check_mixed_accumulation(prog, rep, rels, rule='ACCUM-mixed'):
+    from .core import key_text
+    n = 0
+    for rel in rels:
+        m = prog.module(rel)
+        rep.unit(m)
+        for q, f in m.functions.items():
+            n += 1
+            for c, a, p in mixed_accumulation(f):
+                rep.violation(rule, m, q, 'overwrite:%s[%s]' % (c, ast.unparse(p.targets[0].slice)),
+                              '`%s` overwrites a slot of `%s` while `%s` in the same loop '
+                              'accumulates into that container: slots are shared between '
+                              'iterations, the contribution an earlier iteration stored there is '
+                              'lost' % (key_text(p)[:60], c, key_text(a)[:60]), p.lineno)
+    rep.instance(rule, {'functions_analysed': n, 'modules': list(rels)})
+    return n
